@@ -1,9 +1,19 @@
 package codecconn
 
 import (
+	"bufio"
 	"bytes"
 	"encoding/binary"
+	"encoding/json"
+	"fmt"
 	"math/rand"
+	"os"
+	"os/exec"
+	"strconv"
+	"strings"
+	"syscall"
+
+	"golang.org/x/sys/unix"
 
 	"github.com/talostrading/sonic"
 	"github.com/talostrading/sonic/codec/frame"
@@ -16,16 +26,43 @@ import (
 // per Decode call together with what an independent reading of the same bytes
 // (4-byte big-endian length, then the payload) says about them. Panics are
 // recovered and logged.
-func runDec(w *tr.Writer, sum *tr.Summary, seed int64, count int, withLimit bool) {
-	rng := rand.New(rand.NewSource(seed*7919 + 17))
+// limitAddressSpace caps RLIMIT_AS at the current size plus extra bytes.
+func limitAddressSpace(extra uint64) {
+	var rl syscall.Rlimit
+	if b, err := os.ReadFile("/proc/self/statm"); err == nil {
+		var pages uint64
+		fmt.Sscan(string(b), &pages)
+		rl.Cur = pages*uint64(os.Getpagesize()) + extra
+		rl.Max = rl.Cur
+		_ = syscall.Setrlimit(unix.RLIMIT_AS, &rl)
+	}
+}
+
+// decChild runs the cases from..count and prints one line per event on stdout:
+// "E <json>" for an event, "P <json>" before every Decode call (the event to
+// record, with err = panic, should the process not survive the call), "N" for
+// a non-trivial case. Its address space is limited, so that a decoder that
+// tries to buffer a hostile declared length (gigabytes) kills this process
+// and not the machine.
+func decChild(seed int64, from, count int) {
+	limitAddressSpace(1500 << 20)
+	out := bufio.NewWriter(os.Stdout)
+	line := func(tag string, e Ev) {
+		b, _ := json.Marshal(e)
+		out.WriteString(tag + " ")
+		out.Write(b)
+		out.WriteString("\n")
+		out.Flush()
+	}
 	const limit = frame.MaxPayloadLength
 	i := 0
 	emit := func(sid int, e Ev) {
 		i++
 		e.C, e.Sid, e.I, e.Ctx, e.Exact = "cc", sid, i, "top", 1
-		w.Emit(e)
+		line("E", e)
 	}
-	for sid := 1; sid <= count; sid++ {
+	for sid := from; sid <= count; sid++ {
+		rng := rand.New(rand.NewSource(seed*7919 + 17 + int64(sid)*104729))
 		i = 0
 		emit(sid, Ev{Ev: "Reset"})
 		src := sonic.NewByteBuffer()
@@ -79,10 +116,6 @@ func runDec(w *tr.Writer, sum *tr.Summary, seed int64, count int, withLimit bool
 				hostile = true
 			}
 		}
-		if withLimit && sid == 1 {
-			// exactly the limit: legal, needs more, may reserve
-			data = []byte{0x40, 0, 0, 0, 1, 2, 3}
-		}
 		// feed it in pieces, Decode after each piece and once more at the end
 		var pending []byte // fed, not yet consumed by a successful Decode
 		fed := 0
@@ -114,6 +147,10 @@ func runDec(w *tr.Writer, sum *tr.Summary, seed int64, count int, withLimit bool
 				cap0 := src.Cap()
 				var item []byte
 				var err error
+				pe := e
+				pe.Err = "panic"
+				pe.C, pe.Sid, pe.I, pe.Ctx, pe.Exact = "cc", sid, i+1, "top", 1
+				line("P", pe)
 				func() {
 					defer func() {
 						if r := recover(); r != nil {
@@ -161,9 +198,70 @@ func runDec(w *tr.Writer, sum *tr.Summary, seed int64, count int, withLimit bool
 				}
 			}
 		}
-		sum.Scenarios++
 		if nontrivial {
-			sum.Nontrivial++
+			out.WriteString("N\n")
 		}
+		out.WriteString("D\n")
+		out.Flush()
 	}
+}
+
+// runDec drives decChild processes and turns their output into the trace; a
+// child that dies inside a Decode call is recorded as a panic on that input
+// and the run continues with the next case.
+func runDec(w *tr.Writer, sum *tr.Summary, seed int64, count int) error {
+	from := 1
+	for restarts := 0; from <= count; restarts++ {
+		if restarts > count+5 {
+			return fmt.Errorf("decoder child died %d times", restarts)
+		}
+		cmd := exec.Command(os.Args[0], "codecconn", "-seed", strconv.FormatInt(seed, 10),
+			"-mode", fmt.Sprintf("kind=decchild,from=%d,count=%d", from, count))
+		cmd.Stderr = nil
+		pipe, err := cmd.StdoutPipe()
+		if err != nil {
+			return err
+		}
+		if err := cmd.Start(); err != nil {
+			return err
+		}
+		sc := bufio.NewScanner(pipe)
+		sc.Buffer(make([]byte, 1<<20), 1<<26)
+		var pending *Ev
+		cur := from
+		for sc.Scan() {
+			ln := sc.Text()
+			switch {
+			case strings.HasPrefix(ln, "E "):
+				var e Ev
+				if json.Unmarshal([]byte(ln[2:]), &e) == nil {
+					w.Emit(e)
+					cur = e.Sid
+					pending = nil
+				}
+			case strings.HasPrefix(ln, "P "):
+				var e Ev
+				if json.Unmarshal([]byte(ln[2:]), &e) == nil {
+					pending = &e
+				}
+			case ln == "N":
+				sum.Nontrivial++
+			case ln == "D":
+				sum.Scenarios++
+				from = cur + 1
+			}
+		}
+		werr := cmd.Wait()
+		if werr == nil {
+			break
+		}
+		if pending == nil {
+			return fmt.Errorf("decoder child failed outside Decode: %v", werr)
+		}
+		w.Emit(*pending) // the process did not survive Decode on this input
+		sum.Scenarios++
+		sum.Nontrivial++
+		from = pending.Sid + 1
+	}
+	return nil
 }
